@@ -322,7 +322,8 @@ fn check_substring(text: &str, start: Option<i32>, end: Option<i32>, st: &mut St
 
 fn check_template(template: &str, st: &mut Stats) -> CheckResult {
   st.eval();
-  // tokens whose status the property leaves open: `_`-first and digit-first names after a sigil
+  // tokens whose status the property leaves open: `_`-first names after a sigil. (Digit-first
+  // names cannot be meta variables: `$1` is literal text of the template.)
   let b = template.as_bytes();
   for i in 0..b.len() {
     if b[i] == b'$' {
@@ -330,7 +331,7 @@ fn check_template(template: &str, st: &mut Stats) -> CheckResult {
       while j < b.len() && b[j] == b'$' {
         j += 1;
       }
-      if j < b.len() && (b[j] == b'_' || b[j].is_ascii_digit()) {
+      if j < b.len() && b[j] == b'_' {
         st.label("template_skipped_open_spelling");
         return Ok(());
       }
@@ -428,7 +429,7 @@ pub fn run(cfg: &RunCfg) -> i32 {
     "bounded-exhaustive enumeration. spellings: every string over {$,A,B,a,1,_} up to length 6 (thorough; quick: up to length 5 plus a seed-chosen 5% of length 6) x 23 languages in one leaf context each, against a regex-free reference classifier; An+B: every string over {n,N,+,-,0,1,2,3,space} up to length 6 (quick: length <= 5 plus 3% sample) as nthChild of `kind: number` on [1..40], all 40 indices; substring: every text of <= 4 chars over {a,é,😀} x start,end in {absent,-6..6}; templates: every string over {$,A,a,1,_,space} up to length 6 (quick: <= 5) with A, A1, AA, $$$A bound. evaluations = enumerated cases; non-trivial = distinct cases containing a sigil other than the canonical `$A` / well-formed formulas / all substring cases.",
   );
   report.assume("An+B: all whitespace is ignored before parsing (the implementation's documented behaviour); rejection is required only for strings malformed after that");
-  report.assume("templates: `_`-first and digit-first names after a sigil are left open by the property and skipped (counted)");
+  report.assume("templates: `_`-first names after a sigil are left open by the property and skipped (counted); digit-first names are literal text, as in patterns");
   let known = Known::load(&cfg.prop);
   if let Some(path) = &cfg.replay {
     return crate::replay_main::<Case>(cfg, path, check);
